@@ -21,9 +21,11 @@ import (
 // compiles a module that was lowered with every map walked ascending (a fixed
 // base, so that a lowering that depends on map order cannot make the backend
 // comparison flaky; it is reported by the "lower" stage instead).
-var stages = []string{"lower", "spirv", "hlsl", "msl", "glsl", "dxil"}
+var stages = append([]string{"lower", "spirv", "hlsl", "msl", "glsl", "dxil"}, bodies.Variants...)
 
 const rotCapThorough = 24
+
+const notApplicable = "c12x: stage does not apply to this program"
 
 type siteInfo struct {
 	Max     int    `json:"max_keys"`
@@ -80,7 +82,15 @@ func runStage(src, stage string, o *verifrt.Order, siteOrder map[string]verifrt.
 	if o != nil {
 		c = install(*o, siteOrder)
 	}
-	out := bodies.Compile(bodies.Backend(stage), m)
+	var out bodies.Out
+	if strings.Contains(stage, "+") || stage == "overrides" {
+		var ok bool
+		if out, ok = bodies.CompileVariant(stage, m); !ok {
+			out = bodies.Out{Err: notApplicable}
+		}
+	} else {
+		out = bodies.Compile(bodies.Backend(stage), m)
+	}
 	verifrt.Install(nil)
 	if c == nil {
 		return out, nil, nil
@@ -196,6 +206,9 @@ func runMapOrder(f *flags) *mapOrderOut {
 				lowerOK = false
 				res.LowerFailures++
 			}
+			if pt.Err == notApplicable {
+				continue
+			}
 			nat := verifrt.Order{Kind: verifrt.Native}
 			ref, reached, hits := runStage(p.Src, stage, &nat, nil)
 			res.Runs += 2
@@ -253,8 +266,14 @@ func runMapOrder(f *flags) *mapOrderOut {
 				ords = append(ords, b.o.String())
 			}
 			b0 := bad[0]
+			for _, b := range bad {
+				if b.o.Kind != verifrt.Native { // prefer a harness-chosen order as the witness
+					b0 = b
+					break
+				}
+			}
 			detail := fmt.Sprintf("program %s, stage %s: output under map order %s differs from the native-order run (%s vs %s; first difference: %s); differing orders: %s; sites whose order alone changes the output: %v",
-				p.Name, stage, b0.o, b0.out.Digest(), ref.Digest(), firstDifference(ref, b0.out, stage != "spirv" && stage != "dxil"), strings.Join(ords, " "), cs)
+				p.Name, stage, b0.o, b0.out.Digest(), ref.Digest(), firstDifference(ref, b0.out, !strings.HasPrefix(stage, "spirv") && !strings.HasPrefix(stage, "dxil")), strings.Join(ords, " "), cs)
 			rp := mapOrderReplay{Kind: "maporder", Property: "C12", Program: p.Name, Source: p.Src, Stage: stage, Order: b0.o.String(),
 				OrderK: int(b0.o.Kind), OrderR: b0.o.R, Culprits: cs, Native: ref.Digest(), Ordered: b0.out.Digest(), Key: key}
 			path := ""
